@@ -1,23 +1,50 @@
 (* C01 -- Parse-then-serialize reproduces the parsed bytes.
-   Model: Model/Unpack.v (parser with its ghost trace of consumed chunks), Model/Pack.v (serializer), Kernel/Frag.v
-   (output buffer and its sparse-array specification).
+   Model: Model/Unpack.v (parser with its ghost trace of consumed chunks), Model/Pack.v (serializer), Model/Codegen.v
+   (the generated code, chosen per class by the class options), Kernel/Frag.v (output buffer and its sparse-array
+   specification).
 
    FULL STATEMENT (the property): for every declaration of the supported language, every input and start offset on
    which unpack succeeds, pack() of the result is the sparse array holding every consumed chunk at its position
    relative to the start offset and '.' elsewhere, and raises PacketError exactly when two consumed chunks overlap.
-   PROVED BELOW (`_partial`): exactly that, for every class table satisfying `ct_rt off` -- i.e. everything EXCEPT
-     * runs of bit fields (CBits): their round trip is Properties/C07.C07_unpack_pack at kernel level, and the
-       whole-packet correspondence (harness/props/C01.py) covers them on the implementation;
+   PROVED BELOW: exactly that (C01_roundtrip), for the code each class actually runs (generated or generic, per
+   option), for every class table satisfying `ct_rtb off` and `ct_bits_ok` -- the whole language, bit runs included
+   (`ct_bits_ok` is what `describe` produces: C01_describe_bits_ok) -- EXCEPT
      * what the property itself excludes (a regex delimiter not kept in the value);
      * start-of-data positioning with an incompatible start offset: there the statement is FALSE of the code
        (C01_offset_refuted, finding D10);
    and under three hypotheses the proof needed (each with its refutation in Proofs/RoundTrip.v): the input consists
    of bytes, no chunk starts beyond the end of the input or before the start offset.
-   The theorems speak of the generic field loop; Properties/C03 proves the generated code equivalent to it. *)
+   C01_roundtrip_partial is the earlier theorem (generic loop, no bit runs), kept because other files refer to it. *)
 From Coq Require Import ZArith List Bool.
 From Bisturi Require Import Base.Bytes Kernel.IntCodec Kernel.Align Kernel.Frag Model.Value Model.Decl Model.Unpack Model.Pack
-                            Model.Wf3 Proofs.FragProofs Proofs.RoundTrip.
+                            Model.Wf Model.Wf2 Model.Wf3 Model.WfBits Model.Codegen
+                            Proofs.FragProofs Proofs.RoundTrip Proofs.RoundTripFull.
 Import ListNotations. Open Scope Z_scope.
+
+(* the property, for the code each class runs (generated or generic), bit runs included *)
+Theorem C01_roundtrip : forall fuel host dl ct raw c off s e t,
+  wf_bytes raw -> ct_distinct ct = true -> ct_rtb off ct = true -> ct_bits_ok ct = true ->
+  ct_wf ct = true -> ct_sizes_ok ct = true -> 0 <= off ->
+  unpack_any fuel host ct raw c off = POk (VPkt c s) e t -> trace_from off t -> trace_in raw t ->
+  match fold_a aempty (chunk_ops off t) with
+  | Some a => exists v', pack_any_top fuel host dl ct c s = PBytes (a_tobytes a) v'
+  | None => exists st, pack_any_top fuel host dl ct c s = PErr st
+  end.
+Proof. exact roundtrip_bytes_any. Qed.
+
+(* the same for the generic field loop alone *)
+Theorem C01_roundtrip_generic : forall fuel host dl ct raw c off s e t,
+  wf_bytes raw -> ct_distinct ct = true -> ct_rtb off ct = true -> ct_bits_ok ct = true -> 0 <= off ->
+  unpack_pkt fuel host ct raw c off = POk (VPkt c s) e t -> trace_from off t -> trace_in raw t ->
+  match fold_a aempty (chunk_ops off t) with
+  | Some a => exists v', pack_top fuel host dl ct c s = PBytes (a_tobytes a) v'
+  | None => exists st, pack_top fuel host dl ct c s = PErr st
+  end.
+Proof. exact roundtrip_bytes_bits. Qed.
+
+(* the metaclass only builds well-formed bit runs (every declared width at least one bit) *)
+Theorem C01_describe_bits_ok : forall p k, pclass_bits_pos p = true -> describe p = Some k -> class_bits_ok k = true.
+Proof. exact describe_bits_ok. Qed.
 
 Theorem C01_roundtrip_partial : forall fuel host dl ct raw c off s e t,
   wf_bytes raw -> ct_distinct ct = true -> ct_rt off ct = true -> 0 <= off ->
@@ -30,14 +57,14 @@ Proof. exact roundtrip_bytes. Qed.
 
 (* the inductive core: serializing into any buffer replays exactly the inserts "chunk at position - base" *)
 Theorem C01_trace_symmetry : forall fuel host dl ct raw c off base v e t fr,
-  wf_bytes raw -> ct_distinct ct = true -> ct_rt base ct = true -> 0 <= base <= off -> cur fr = off - base ->
+  wf_bytes raw -> ct_distinct ct = true -> ct_rtb base ct = true -> ct_bits_ok ct = true -> 0 <= base <= off -> cur fr = off - base ->
   unpack_pkt fuel host ct raw c off = POk v e t -> trace_from base t -> trace_in raw t ->
   exists s, v = VPkt c s /\
     match ins_trace base t fr with
     | Frag.Ok fr1 => exists v' fr2, pack_pkt fuel host dl ct c s fr = QOk v' fr2 /\ same_content fr2 fr1 /\ cur fr2 = e - base
     | _ => exists st, pack_pkt fuel host dl ct c s fr = QFail st
     end.
-Proof. exact roundtrip_trace. Qed.
+Proof. exact roundtrip_trace_bits. Qed.
 
 (* class tables built by the metaclass always have distinct field indices *)
 Theorem C01_describe_distinct : forall p k, describe p = Some k -> nodupb (fidxs (cc_fields k)) = true.
@@ -65,6 +92,20 @@ Example C01_example :
     pack_top 5 true rt_dl0 rt_ex_ct 0 s = PBytes [2; 46; 1; 2; 5; 46; 6; 8] (VPkt 0 s).
 Proof. exact roundtrip_nonvacuous. Qed.
 
+(* non-vacuity of C01_roundtrip: a described class with two bit runs, generated code on both sides *)
+Example C01_example_full :   exists k s e t,
+    describe rtf_ex_pc = Some k /\ pclass_bits_pos rtf_ex_pc = true /\
+    let ct := [(0, k)] in
+    unpack_any 3 true ct rtf_ex_raw 0 2 = POk (VPkt 0 s) e t /\
+    slot_get s (FN 0) = Some (VInt 5) /\ slot_get s (FN 1) = Some (VInt 11) /\
+    slot_get s (FN 3) = Some (VInt 1) /\ slot_get s (FN 4) = Some (VInt 564) /\
+    ct_rtb 2 ct = true /\ ct_bits_ok ct = true /\ ct_distinct ct = true /\ ct_wf ct = true /\
+    ct_sizes_ok ct = true /\ wf_bytes rtf_ex_raw /\ trace_from 2 t /\ trace_in rtf_ex_raw t /\
+    pack_any_top 3 true rt_dl0 ct 0 s = PBytes [171; 7; 18; 52; 1; 2] (VPkt 0 s).
+Proof. exact roundtrip_any_nonvacuous. Qed.
+Print Assumptions C01_roundtrip.
+Print Assumptions C01_roundtrip_generic.
+Print Assumptions C01_describe_bits_ok.
 Print Assumptions C01_roundtrip_partial.
 Print Assumptions C01_trace_symmetry.
 Print Assumptions C01_describe_distinct.
